@@ -338,7 +338,7 @@ const c12Rule = "rapid state machine: token stream of 0-30 tokens over 10 types 
 	"FastForward that skips an elided token, a checkpoint restore that moves the cursor, and a call at EOF; " +
 	"distinct by SHA-256 of (tokens, elision set, operations)"
 
-var c12Types = []int{1, 2, 3, 4, 65, 130, -2, -3, -66, -67}
+var c12Types = []int{1, 2, 0, 3, 4, 65, 130, -2, -3, -66, -67}
 
 func genC12Op(t *rapid.T, name string) c12Op {
 	op := c12Op{Op: name, Obs: rapid.SampledFrom([]int{15, 15, 0, 0, 1, 2, 4, 8, 12, 3}).Draw(t, "obs")}
@@ -382,8 +382,23 @@ func TestC12(t *testing.T) {
 		})
 		c := &c12Case{}
 		n := rapid.IntRange(0, 30).Draw(t, "ntoks")
+		if rapid.IntRange(0, 7).Draw(t, "longstream") == 0 {
+			// streams longer than a machine word of per-token flags, with runs of one (possibly elided) type that end
+			// at or next to a multiple of 64
+			n = rapid.SampledFrom([]int{62, 63, 64, 65, 66, 127, 128, 129, 130, 200}).Draw(t, "nlong")
+		}
+		runType, runLeft := 0, 0
 		for i := 0; i < n; i++ {
 			ty := rapid.SampledFrom(c12Types).Draw(t, "type")
+			if n > 30 {
+				if runLeft == 0 && rapid.IntRange(0, 3).Draw(t, "run") == 0 {
+					runType, runLeft = ty, rapid.SampledFrom([]int{2, 5, 31, 60, 63, 64, 65}).Draw(t, "runlen")
+				}
+				if runLeft > 0 {
+					ty = runType
+					runLeft--
+				}
+			}
 			c.Toks = append(c.Toks, c12Tok{Type: ty, Value: rapid.SampledFrom([]string{"a", "b", " ", "#"}).Draw(t, "value")})
 		}
 		for _, ty := range c12Types {
